@@ -129,6 +129,11 @@ def render(N, n, c):
               "    v : %s = %s;" % (T, vb), "    x = v;",
               "    emit(^x, %d); emit(^g2, 8); putchar(32); emit(^g1, 8); nl();" % c["size"], "}"]
         return "\n".join(L)
+    if kind == "litrev":
+        # S is built by a literal whose members are written in reverse order, x copied from a variable
+        L += ["    S :: struct { x: %s, g: [8]u8 };" % T, "    v : %s = %s;" % (T, vb),
+              "    s := S.{ g = %s, x = v };" % guard_lit(), "    emit(^s, %d); nl();" % (c["size"] + 8), "}"]
+        return "\n".join(L)
     elem = kind in ("elem0", "elem1")
     X = "[2]%s" % T if elem else T
     xinit = "%s.[%s, %s]" % (T, va, va) if elem else va
@@ -156,6 +161,11 @@ def render(N, n, c):
         L += ["    v : %s = %s;" % (T, vb), "    s.x = id%d(v);" % n]
     elif kind == "ptr":
         L += ["    p := ^mut s.x;", "    v : %s = %s;" % (T, vb), "    p^ = v;"]
+    elif kind == "cadd":
+        L += ["    v : %s = %s;" % (T, vb), "    s.x += v;"]
+    elif kind == "caddw":
+        wide = int.from_bytes(bytes(((c["seed_b"] * 7 + j * 13) % 120) + 1 for j in range(1, 9)), "little")
+        L += ["    v : u64 = %d;" % wide, "    s.x += v;"]
     elif kind == "cast":
         L += ["    w := %s;" % N.lit(t, c["tb"], twin=True), "    s.x = %s.(w);" % T]
     elif kind == "castw":
@@ -195,7 +205,7 @@ def run(chk):
     chk.require_tlc_ok("Memory.tla (frame condition as action property; images per behaviour)", res)
     seen, cases = set(), []
     for x in common.tlc_lines(res.out, "CASE"):
-        kk = json.dumps([x["t"], x["kind"], x["tb"]], sort_keys=True)
+        kk = json.dumps([x["t"], x["kind"], x["tb"], x["seed_b"]], sort_keys=True)
         if kk not in seen:
             seen.add(kk)
             cases.append(x)
@@ -215,6 +225,8 @@ def run(chk):
     for n, (line, why) in zip(idx, results):
         c = cases[n]
         desc = "%s into %s" % (c["kind"], sh(c["t"]))
+        if line is None and c["kind"] == "caddw" and why.startswith("rejected"):
+            continue            # a checker that rejects `u8 += u64` is right to; nothing was stored
         if line is None:
             notrun.setdefault(why[:70], []).append(desc)
             sig = {"kind": "not-built", "store": c["kind"], "ty": sh(c["t"])[:40], "why": why[:50]}
